@@ -371,10 +371,9 @@ func init() {
 				return "ok"
 			}},
 		)
+		// every state is stored, loaded and probed: depth 3 in both tiers (the thorough tier goes deeper on the aged
+		// database below and uses the deep probes)
 		depth := 3
-		if !c.Quick() {
-			depth = 4
-		}
 		cfg := e1.Config{ReplayNames: c.ReplayCalls(), Alphabet: alpha, Depth: depth, Stop: r.TooMany,
 			New: func() *world.World {
 				w := world.New()
@@ -415,6 +414,9 @@ func init() {
 		// the same on a database whose change log holds aged events and whose retention trims at every commit
 		aged := cfg
 		aged.Depth = 2
+		if !c.Quick() {
+			aged.Depth = 3
+		}
 		aged.New = func() *world.World {
 			w := c09NewWorld(true)
 			if w.Store != nil {
